@@ -152,6 +152,8 @@ def replay_containment(w):
             with contextlib.redirect_stdout(io.StringIO()), contextlib.redirect_stderr(io.StringIO()):
                 p = parserh.project_concrete(files, dbg=True, display=["public", "private", "protected"])
                 res.append(_observe_factory(name)(p))
+        except Exception as ex:  # noqa - FORD itself aborted
+            return True, {"extra file": name, "statements": lines, "ford aborted with": repr(ex)[:200]}
         finally:
             sf.namelist, fp.warn = old, oldw
     (acc, leaked, shape, obs), (_, _, shape0, obs0) = res
@@ -189,7 +191,13 @@ def _containment_ob(pos):
             base = _run({k_: list(v) for k_, v in GOOD.items()}, name, w0)
             files = {k_: list(v) for k_, v in GOOD.items()}
             files[name] = lines
-            got = _run(files, name, w1)
+            try:
+                got = _run(files, name, w1)
+            except (IndexError, KeyError, AttributeError, TypeError, ValueError, RuntimeError, NotImplementedError, StopIteration) as ex:
+                E.reachable("both runs")
+                E.reachable("rejected")
+                E.require(False, "FORD aborts on an unparseable file instead of reporting and skipping it: " + type(ex).__name__)
+                return
             E.reachable("both runs")
             acc, leaked, shape, obs = got
             if acc:
